@@ -30,6 +30,8 @@ type c11Input struct {
 	Resolver bool     `json:"resolver"`
 	Side     string   `json:"side"`             // decorator | restorer
 	Extras   bool     `json:"extras,omitempty"` // restorer side: Restorer.Extras (objects and scopes restored, deferred declaring nodes)
+	Package  bool     `json:"package,omitempty"` // the files are resolved as one package first (ast.NewPackage): identifiers of one file carry objects declared in another
+	Remove   bool     `json:"remove_first_stmt,omitempty"` // restorer side: the first statement of the first function is taken out after decorating (its objects keep pointing at it)
 }
 
 func astKind(n ast.Node) string { return kindOf(n) }
@@ -153,8 +155,22 @@ func c11Check(in c11Input) (key, what string) {
 	}
 	var afs []*ast.File
 	var dfs []*dst.File
+	parsed := map[int]*ast.File{}
+	if in.Package {
+		files := map[string]*ast.File{}
+		for i, src := range in.Srcs {
+			if af, err := parser.ParseFile(fset, fmt.Sprintf("f%d.go", i), src, parser.ParseComments); err == nil {
+				parsed[i] = af
+				files[fmt.Sprintf("f%d.go", i)] = af
+			}
+		}
+		ast.NewPackage(fset, files, nil, nil) // resolves identifiers across the files (errors about unresolved names are expected)
+	}
 	for i, src := range in.Srcs {
-		af, err := parser.ParseFile(fset, fmt.Sprintf("f%d.go", i), src, parser.ParseComments)
+		af, err := parsed[i], error(nil)
+		if af == nil {
+			af, err = parser.ParseFile(fset, fmt.Sprintf("f%d.go", i), src, parser.ParseComments)
+		}
 		if err != nil {
 			continue
 		}
@@ -167,6 +183,14 @@ func c11Check(in c11Input) (key, what string) {
 	}
 	if len(dfs) == 0 {
 		return "", ""
+	}
+	if in.Remove {
+		for _, d := range dfs[0].Decls {
+			if fd, ok := d.(*dst.FuncDecl); ok && fd.Body != nil && len(fd.Body.List) > 1 {
+				fd.Body.List = fd.Body.List[1:]
+				break
+			}
+		}
 	}
 	if in.Side == "decorator" {
 		// totality over the ast (comments excluded) and over Obj.Decl links
@@ -262,7 +286,30 @@ func c11Prop(c *Ctx) {
 		"package a\n\nimport (\n\t\"io\"\n\t\"os\"\n)\n\ntype Set[T io.Reader] struct{ x T }\n\nfunc g() error {\n\tvar w io.Writer = os.Stdout\n\t_ = w\n\treturn io.EOF\n}\n",
 	}
 	srcs := append(append([]string{}, extra...), oracleSources(c, c.N(14), 8000)...)
-	for i := 0; i < c.N(24)+len(extra); i++ {
+	// the files of one package resolved together and decorated one by one with ONE decorator, in every rotation
+	for _, files := range c18CrossFiles {
+		for rot := 0; rot < len(files); rot++ {
+			for _, side := range []string{"decorator", "restorer"} {
+				in := c11Input{Srcs: append(append([]string{}, files[rot:]...), files[:rot]...), Side: side, Package: true}
+				c.Res.Evaluations++
+				c.Res.hist("c11", side+" cross-file objects")
+				if key, what := c11Check(in); key != "" {
+					c.Res.fail(key, what, in)
+				}
+			}
+		}
+	}
+	// a statement that declares a variable is removed while uses of the variable stay: with Extras and
+	// import management the declaring statement (with its qualified identifier) is restored outside the tree
+	for _, res := range []bool{false, true} {
+		in := c11Input{Srcs: []string{"package a\n\nimport \"fmt\"\n\nfunc f() {\n\tx := fmt.Sprint(1)\n\tfmt.Println(x)\n\ty, z := fmt.Sprint(2), x\n\t_, _ = y, z\n}\n"}, Side: "restorer", Resolver: res, Extras: true, Remove: true}
+		c.Res.Evaluations++
+		c.Res.hist("c11", fmt.Sprintf("restorer+extras, declaring statement removed, resolver=%v", res))
+		if key, what := c11Check(in); key != "" {
+			c.Res.fail(key, what, in)
+		}
+	}
+	for i := 0; i < c.N(96)+len(extra); i++ {
 		in := c11Input{Resolver: c.Rng.Intn(2) == 0, Side: []string{"decorator", "restorer"}[c.Rng.Intn(2)]}
 		n := 1 + c.Rng.Intn(3)
 		if i < len(extra) {
